@@ -32,6 +32,8 @@ struct Case {
     valid: bool,
     driver: usize,
     param: usize,
+    /// decode this frame (larger window) completely on the same decoder first: the bound must hold on reused decoders too
+    reuse_after: Option<Vec<u8>>,
 }
 
 const DRIVERS: [&str; 5] = ["UptoBlocks(1)", "UptoBytes(n)", "UptoBlocks(k)", "StreamingDecoder::read(n)", "decode_all"];
@@ -80,6 +82,14 @@ fn build_cases(args: &Args) -> Vec<Case> {
         let frame = refz::compress(&data, level, &[CP::WindowLog(wlog), CP::ChecksumFlag(i % 2 == 0)], None).expect("reference compressor");
         frames_.push((format!("libzstd: {shape:?} {len} bytes level {level} wlog {wlog}"), frame, false, true));
     }
+    // small windows with a lot of content: these are the ones where retaining too much shows
+    for (k, wlog) in [10u32, 12, 14, 16].into_iter().enumerate() {
+        let len = (3 << 19) + 1000 * k;
+        let shape = *r.pick(&[wl::Shape::Text, wl::Shape::Skewed, wl::Shape::RepeatsNear]);
+        let data = wl::gen(&mut r, shape, len);
+        let frame = refz::compress(&data, 3, &[CP::WindowLog(wlog)], None).expect("reference compressor");
+        frames_.push((format!("libzstd: 1.5 MiB of content, wlog {wlog}"), frame, false, true));
+    }
     // benign synthesised frames (maximal blocks, RLE blocks, ...)
     for c in frames::synth_matrix().iter() {
         // frames declaring windows above the default limit are legitimately refused: not part of this workload
@@ -88,6 +98,10 @@ fn build_cases(args: &Args) -> Vec<Case> {
             frames_.push((c.origin.clone(), c.bytes.clone(), false, true));
         }
     }
+    // a small frame declaring a 4 MiB window (content 5000 bytes)
+    // (streaming without a pledged size, otherwise the reference compressor shrinks the window to the content)
+    let big_first = refz::compress_stream(&wl::gen(&mut r, wl::Shape::Text, 5000), 3, &[CP::WindowLog(22)], &[2500], false, None).expect("reference compressor");
+    assert_eq!(zspec::frame::parse_frame_header(&big_first).map(|h| h.window_size).unwrap_or(0), 4 << 20, "harness: first frame does not declare a 4 MiB window");
     let mut cases = Vec::new();
     for (fi, (name, frame, oversized, valid)) in frames_.into_iter().enumerate() {
         // every frame with two or three drivers, rotating
@@ -99,7 +113,21 @@ fn build_cases(args: &Args) -> Vec<Case> {
                 3 => *r.pick(&[1usize, 100, 4096, 1 << 20]),
                 _ => 0,
             };
-            cases.push(Case { name: name.clone(), frame: frame.clone(), oversized_block: oversized, valid, driver: d, param });
+            cases.push(Case { name: name.clone(), frame: frame.clone(), oversized_block: oversized, valid, driver: d, param, reuse_after: None });
+        }
+        // the same frame on a decoder that has seen a frame with a much larger window before
+        let window = zspec::frame::parse_frame_header(&frame).map(|h| h.window_size).unwrap_or(u64::MAX);
+        let many = name.starts_with("libzstd: 1.5 MiB");
+        for d in [0usize, 1, 3] {
+            if !(window <= (64 << 10) && (many || (fi % 2 == 0 && d == [0usize, 1, 3][fi / 2 % 3]))) {
+                continue;
+            }
+            let param = match d {
+                1 => 1000,
+                3 => 4096,
+                _ => 0,
+            };
+            cases.push(Case { name: format!("{name} [on a decoder reused after a frame with a 4 MiB window]"), frame: frame.clone(), oversized_block: oversized, valid, driver: d, param, reuse_after: Some(big_first.clone()) });
         }
     }
     cases
@@ -125,10 +153,17 @@ fn run_case(c: &Case) -> Value {
     calloc::reset_peak();
     let live0 = calloc::stats().live;
     let mut budget_for_heap = 0usize;
+    let reused = c.reuse_after.is_some();
     let res = catch(|| -> Result<(), String> {
+        let mut d = FrameDecoder::new();
+        if let Some(first) = &c.reuse_after {
+            let mut src = &first[..];
+            d.reset(&mut src).map_err(|e| format!("HARNESS first frame: {e}"))?;
+            d.decode_blocks(&mut src, BlockDecodingStrategy::All).map_err(|e| format!("HARNESS first frame: {e}"))?;
+            let _ = d.collect();
+        }
         match c.driver {
             0..=2 => {
-                let mut d = FrameDecoder::new();
                 let mut src = &c.frame[..];
                 d.reset(&mut src).map_err(|e| format!("reset: {e}"))?;
                 loop {
@@ -147,6 +182,10 @@ fn run_case(c: &Case) -> Value {
                     max_delta = max_delta.max(delta);
                     // the rule: held grows by at most what was asked for plus one block (also when the call fails)
                     let allowed = if c.driver == 1 { c.param + BLOCK } else { budget };
+                    // absolute form: the caller collected everything collectable before this call, so at most the window was held
+                    if after > window + allowed {
+                        return Err(format!("BOUND after one {} call the decoder holds {after} bytes although the caller collected before the call (window {window} + allowed {allowed})", DRIVERS[c.driver]));
+                    }
                     if delta > allowed {
                         return Err(format!("BOUND one {} call grew the held decoded data by {delta} bytes (allowed {allowed}; result {})", DRIVERS[c.driver], if r.is_ok() { "Ok" } else { "Err" }));
                     }
@@ -160,7 +199,7 @@ fn run_case(c: &Case) -> Value {
                 Ok(())
             }
             3 => {
-                let mut s = StreamingDecoder::new(&c.frame[..]).map_err(|e| format!("init: {e}"))?;
+                let mut s = StreamingDecoder::new_with_decoder(&c.frame[..], &mut d).map_err(|e| format!("init: {e}"))?;
                 let mut buf = vec![0u8; c.param];
                 budget_for_heap = c.param;
                 loop {
@@ -181,7 +220,6 @@ fn run_case(c: &Case) -> Value {
                 Ok(())
             }
             _ => {
-                let mut d = FrameDecoder::new();
                 // decode_all asks for 1 MiB at a time internally
                 budget_for_heap = 1 << 20;
                 let mut out = vec![0u8; 9 << 20];
@@ -222,7 +260,8 @@ fn run_case(c: &Case) -> Value {
         v!("valid_frame_rejected", err_text.clone().unwrap_or_default());
     }
     let envelope = 4 * (window + budget_for_heap + 256 * 1024) + (16 << 20);
-    if calloc::ENABLED && peak > envelope {
+    // a reused decoder legitimately keeps the ring capacity of the largest earlier frame: heap envelope on fresh decoders only
+    if calloc::ENABLED && peak > envelope && !reused {
         v!("heap_envelope", format!("peak live heap {peak} bytes, envelope 4*(window {window} + budget {budget_for_heap} + 256 KiB) + 16 MiB = {envelope}"));
     }
     json!({"violations": violations, "outcome": outcome, "max_held": max_held, "max_delta": max_delta, "calls": calls, "peak_heap": peak, "window": window, "error": err_text})
